@@ -583,7 +583,37 @@ func ruleP2(c *Ctx) {
 		}
 	})
 	fetch := findFetch(ci)
+	// the drain must be unconditional: inside the deferred body the Done call may be
+	// guarded only by the loop's own bound test, not by the outcome of the call
+	condDrain := ""
+	if drain != nil {
+		if body := deferredBody(drain); body != nil {
+			eachInstr(body, func(in2 ssa.Instruction) {
+				cc, ok := in2.(ssa.CallInstruction)
+				if !ok || !cc.Common().IsInvoke() || cc.Common().Method.Name() != "Done" {
+					return
+				}
+				for _, pc := range pathConds(in2.Block()) {
+					loopBound := false
+					if b, ok := pc.If.Cond.(*ssa.BinOp); ok && (b.Op == token.LSS || b.Op == token.GTR || b.Op == token.LEQ || b.Op == token.GEQ) {
+						for y := range backSlice(b) {
+							if call, ok := y.(*ssa.Call); ok {
+								if bi, ok := call.Call.Value.(*ssa.Builtin); ok && bi.Name() == "len" {
+									loopBound = true
+								}
+							}
+						}
+					}
+					if !loopBound {
+						condDrain = c.P.Pos(pc.If.Cond.Pos())
+					}
+				}
+			})
+		}
+	}
 	switch {
+	case drain != nil && condDrain != "":
+		c.viol(key, c.P.Pos(drain.Pos()), "the deferred drain of the iterator stack is conditional (test at "+condDrain+"): on the excluded exits (e.g. a normal return from inside a for loop) the iterated collections stay locked")
 	case drain == nil:
 		c.viol(key, c.P.Pos(ci.Pos()), "CallInternal has no deferred closure calling Done on the iterators left on iterstack: return/error/panic inside a for loop leaks the locks")
 	case fetch == nil:
